@@ -38,6 +38,13 @@ def pivot():
     S.append(EnumSpec("Esc", [U("Braces", to_string="${{name}}", fields=[Field("u32", name="id")], named=True), U("Tb", serialize=["{{x}}", "x"], fields=[Field("u8")]),
                               U("Ub", to_string="u{{}}"), U("Tab", serialize=["\t\t", "tab"]), U("Quote", to_string="a\"b\\")],
                       note="doubled braces without placeholders on named / tuple / unit variants; spellings that need escaping"))
+    S.append(EnumSpec("Raw", [U("r#type"), U("r#match", fields=[Field("u8")]), U("Plain"), U("r#loop", fields=[Field("u16", name="n")], named=True)],
+                      note="raw identifiers as variant names, no explicit spelling"))
+    S.append(EnumSpec("RawSnake", [U("r#type"), U("r#Match", fields=[Field("u8")]), U("PlainName")], serialize_all="SCREAMING_SNAKE_CASE",
+                      note="raw identifiers re-cased by serialize_all"))
+    S.append(EnumSpec("CiUpper", [U("At", serialize=["\u00d6sterreich"]), U("Fr", to_string="\u00c9tats-Unis", fields=[Field("u8")]), U("Es", serialize=["espa\u00f1a"]),
+                                  U("Unit", to_string="\u00c5NGSTR\u00d6M", aci=True, aci_bare=True)], aci=True,
+                      note="case-insensitive variants whose printed name contains non-ASCII UPPER-case letters"))
     for st in casing.ALL_STYLE_STRINGS:
         nm = "St" + "".join(ch for ch in st.title() if ch.isalnum())
         S.append(EnumSpec(nm, [U("DarkBlack"), U("HTTPServer", fields=[Field("u8")]), U("Io2Go"), U("X"), U("KeepMe", serialize=["KeepMe", "km"]),
